@@ -16,6 +16,7 @@ import (
 type App struct {
 	Path     string
 	AutoCkpt int
+	CachePages int
 	db       *sql.DB
 	conn     *sql.Conn // main connection
 	reader   *sql.Conn // long reader
@@ -29,13 +30,17 @@ type App struct {
 }
 
 func (a *App) dsn() string {
-	return fmt.Sprintf("file:%s?_pragma=busy_timeout(0)&_pragma=wal_autocheckpoint(%d)", a.Path, a.AutoCkpt)
+	s := fmt.Sprintf("file:%s?_pragma=busy_timeout(0)&_pragma=wal_autocheckpoint(%d)", a.Path, a.AutoCkpt)
+	if a.CachePages > 0 {
+		s += fmt.Sprintf("&_pragma=cache_size(%d)", a.CachePages)
+	}
+	return s
 }
 
 // CreateDB creates the database with the configured page size and schema in
 // rollback mode, fills it and switches to WAL.
 func CreateAppDB(path string, cfg *Config, seed uint64) (*App, error) {
-	a := &App{Path: path, AutoCkpt: cfg.AppAutoCkpt}
+	a := &App{Path: path, AutoCkpt: cfg.AppAutoCkpt, CachePages: cfg.AppCachePages}
 	db, err := sql.Open("sqlite", "file:"+path+"?_pragma=busy_timeout(0)")
 	if err != nil {
 		return nil, err
